@@ -26,6 +26,7 @@ type C11 struct {
 	prePhase  map[string]providertypes.ConsumerPhase
 	preFP     map[string]map[string]string // per-consumer footprints before the block
 	lastFP    map[string]map[string]string // last footprint seen while stopped
+	existAtStop map[string]map[string]bool  // validators known to x/staking when the consumer stopped
 	preVals   int
 	sentSeen  map[string]int
 	// TolerateOpenChannel is set by C19 when a fault was injected into the channel closing of a deletion
@@ -35,7 +36,7 @@ type C11 struct {
 }
 
 func NewC11(w *world.World) *C11 {
-	return &C11{stopTime: map[string]time.Time{}, stopUB: map[string]time.Duration{}, atStop: map[string]map[string]string{}, channel: map[string]string{}, sentSeen: map[string]int{}, stopKinds: map[string]bool{}, lastFP: map[string]map[string]string{}}
+	return &C11{stopTime: map[string]time.Time{}, stopUB: map[string]time.Duration{}, atStop: map[string]map[string]string{}, channel: map[string]string{}, sentSeen: map[string]int{}, stopKinds: map[string]bool{}, lastFP: map[string]map[string]string{}, existAtStop: map[string]map[string]bool{}}
 }
 
 var mayRemain = map[byte]bool{44: true, 45: true, 46: true, 47: true, 48: true, 49: true, 54: true, 55: true, 57: true}
@@ -111,6 +112,12 @@ func (m *C11) After(w *world.World, a *world.Action, r *world.StepResult) *Viola
 			m.stopTime[id] = T
 			m.stopUB[id] = ub
 			m.atStop[id] = fp
+			m.existAtStop[id] = map[string]bool{}
+			for name, o := range w.ObserveVals() {
+				if o.Exists {
+					m.existAtStop[id][name] = true
+				}
+			}
 			stop, stopped = T, true
 			kind := "tx"
 			for _, tx := range r.Txs {
@@ -161,9 +168,21 @@ func (m *C11) After(w *world.World, a *world.Action, r *world.StepResult) *Viola
 				return violf(P, "phase-before-deadline", "consumer %s stopped at %s is %s at %s, before stop + unbonding period (%s)", id, stop.Format(time.RFC3339), ph, T.Format(time.RFC3339), deadline.Format(time.RFC3339))
 			}
 			// protocol state is frozen: no new validator set, no new queued packets, bindings and keys kept
+			// (except the key records of a validator that x/staking removed meanwhile: the hook deletes them)
+			valRemoved := false
+			obsNow := w.ObserveVals()
+			for name := range m.existAtStop[id] {
+				if !obsNow[name].Exists {
+					valRemoved = true
+				}
+			}
 			for key, v := range m.atStop[id] {
 				p, ok := prefixOfKey(key)
 				if !ok || !frozenWhileStopped[p] {
+					continue
+				}
+				if valRemoved && p == 22 {
+					w.Label("stopped-key-record-of-removed-validator")
 					continue
 				}
 				if cur, present := fp[key]; !present || cur != v {
